@@ -127,18 +127,20 @@ def pubWorldOp (j : Json) : Except String Res := do
     | none => []
   match item with
   | .actor a =>
-    fields := fields ++ kidsOf (Pub.outboxItem w a.id) (Pub.actorChildren w a harvestN 0) ++ [("parents", Json.arr #[])]
+    fields := fields ++ kidsOf (Pub.outboxItem w a.id) (Pub.actorChildren w a harvestN 0) ++ [("parents", Json.arr #[]), ("frontier", Json.null)]
   | .post p =>
     fields := fields ++ kidsOf (Pub.replyItem w p.id) (Pub.postChildren w p harvestN 0) ++
-      [("parents", Json.arr ((Pub.parents w parentsN p).1.map dumpItem).toArray)]
+      [("parents", Json.arr ((Pub.parents w parentsN p).1.map dumpItem).toArray),
+       ("frontier", match (Pub.parents w parentsN p).2 with | some f => dumpItem (.post f) | none => Json.null)]
   | .activity a =>
     match a.target with
     | .post p =>
       fields := fields ++ kidsOf (Pub.replyItem w p.id) (Pub.postChildren w p harvestN 0) ++
-        [("parents", Json.arr ((Pub.parents w parentsN p).1.map dumpItem).toArray)]
-    | .actor ac => fields := fields ++ kidsOf (Pub.outboxItem w ac.id) (Pub.actorChildren w ac harvestN 0) ++ [("parents", Json.arr #[])]
-    | .failure => fields := fields ++ [("parents", Json.arr #[])]
-  | .failure => fields := fields ++ [("parents", Json.arr #[])]
+        [("parents", Json.arr ((Pub.parents w parentsN p).1.map dumpItem).toArray),
+         ("frontier", match (Pub.parents w parentsN p).2 with | some f => dumpItem (.post f) | none => Json.null)]
+    | .actor ac => fields := fields ++ kidsOf (Pub.outboxItem w ac.id) (Pub.actorChildren w ac harvestN 0) ++ [("parents", Json.arr #[]), ("frontier", Json.null)]
+    | .failure => fields := fields ++ [("parents", Json.arr #[]), ("frontier", Json.null)]
+  | .failure => fields := fields ++ [("parents", Json.arr #[]), ("frontier", Json.null)]
   | .collection c =>
     let r := Coll.harvest (Pub.loadPage w) c.page harvestN 0
     fields := fields ++ kidsOf (Pub.genericItem w) (some (r.out.map (Pub.deliver (Pub.genericItem w)), r.cont))
